@@ -5,7 +5,8 @@
 use crate::io::*;
 use num_bigint::{BigInt, BigUint, Sign};
 use num_integer::Integer;
-use num_traits::{Euclid, One, Signed, Zero};
+use num_integer::Roots;
+use num_traits::{Euclid, One, Pow, Signed, Zero};
 use std::collections::hash_map::DefaultHasher;
 use std::hash::{Hash, Hasher};
 use std::panic::{catch_unwind, AssertUnwindSafe};
@@ -168,6 +169,17 @@ fn apply_u(x: &mut BigUint, op: &str) {
             let (_, w) = cut(rest);
             x.assign_from_slice(&words(w))
         }
+        "mul" => *x *= &arg_u(rest),
+        "muls" => scalar!(x, *=, rest),
+        "pow" => {
+            let t = std::mem::take(x);
+            *x = Pow::pow(t, rest.parse::<u32>().unwrap())
+        }
+        "sqrt" => *x = Roots::sqrt(&*x),
+        "cbrt" => *x = Roots::cbrt(&*x),
+        "nthroot" => *x = Roots::nth_root(&*x, rest.parse::<u32>().unwrap()),
+        "gcd" => *x = Integer::gcd(&*x, &arg_u(rest)),
+        "lcm" => *x = Integer::lcm(&*x, &arg_u(rest)),
         "adds" => scalar!(x, +=, rest),
         "subs" => scalar!(x, -=, rest),
         "divs" => scalar!(x, /=, rest),
@@ -204,6 +216,16 @@ fn apply_i(x: &mut BigInt, op: &str) {
             let (s, w) = cut(rest);
             x.assign_from_slice(sign_of(s), &words(w))
         }
+        "mul" => *x *= &arg_i(rest),
+        "pow" => {
+            let t = std::mem::take(x);
+            *x = Pow::pow(t, rest.parse::<u32>().unwrap())
+        }
+        "sqrt" => *x = Roots::sqrt(&*x),
+        "cbrt" => *x = Roots::cbrt(&*x),
+        "nthroot" => *x = Roots::nth_root(&*x, rest.parse::<u32>().unwrap()),
+        "gcd" => *x = Integer::gcd(&*x, &arg_i(rest)),
+        "lcm" => *x = Integer::lcm(&*x, &arg_i(rest)),
         "neg" => {
             let t = std::mem::take(x);
             *x = -t
